@@ -295,6 +295,10 @@ class Gen:
             props["fill"] = r.choice(PALETTE + ["none"] * 2 + ["black"])
         if r.random() < 0.25:
             props["fill-opacity"] = r.choice(("0.5", "0.25", "1", "0", "0.8"))
+            if not leaf and r.random() < 0.12:
+                # the same values in other legal spellings (on groups: known-finding class when a use target inherits them)
+                props["fill-opacity"] = r.choice((".5", "0.50", "5e-1", "+0.25", "25e-2"))
+                self.f["fill_opacity_other_spelling"] += 1
         if r.random() < (0.3 if leaf else 0.45):
             props["opacity"] = r.choice(("0.5", "0.5", "0.3", "1", "0", "0.75", "0.9"))
             if self.opt.get("out_of_range_opacity", True) and r.random() < 0.08:
@@ -1328,6 +1332,64 @@ def expand_clipped_uses_of_transformed_targets(root):
                 rec(c)
 
     rec(r)
+    return r if hit else None
+
+
+_NUMERIC_INH = ("stroke-width", "stroke-miterlimit", "stroke-dashoffset", "stroke-opacity", "fill-opacity")
+
+
+def _canonical_number(text):
+    """The spelling the pinned code itself writes for a number (`ntos(float(text))`)."""
+    try:
+        v = float(text)
+    except ValueError:
+        return None
+    return str(int(v)) if v.is_integer() else str(v)
+
+
+def simulate_inherited_made_explicit(root):
+    """Bug simulation of a known mechanism in the source: an element that is the target of a <use> and
+    inherits a numeric property from an ancestor whose value is not spelled the way the converter itself
+    spells numbers (".5", "5e-1", "+5", "5.0" ...) gets that value as an explicit attribute when the shapes
+    are written back, so the instances of the <use> carry the value of the target's ORIGINAL context.
+    Returns the rewritten tree, or None if nothing in the document is affected."""
+    r = root.copy()
+    targets = set()
+    for n in r.iter():
+        if n.kind == "el" and n.tag == "use":
+            h = n.attrs.get("xlink:href") or n.attrs.get("href") or ""
+            if h.startswith("#"):
+                targets.add(h[1:])
+    hit = False
+
+    def rec(n, inherited):
+        nonlocal hit
+        mine = dict(inherited)
+        for k, v in own_props(n).items():
+            if k in _NUMERIC_INH:
+                mine[k] = v
+        if n.kind == "el" and n.tag not in ("g", "svg", "defs", "use", "clipPath") and any(x.attrs.get("id") in targets for x in _self_and_ancestors.get(id(n), [n])):
+            own = own_props(n)
+            for k, v in inherited.items():
+                c = _canonical_number(v)
+                if k not in own and c is not None and c != v.strip():
+                    n.attrs[k] = c
+                    hit = True
+        for c in n.children:
+            if c.kind == "el":
+                rec(c, mine)
+
+    # a shape is affected if it, or a group around it, is what a use points at
+    _self_and_ancestors = {}
+
+    def chain(n, anc):
+        _self_and_ancestors[id(n)] = anc + [n]
+        for c in n.children:
+            if c.kind == "el":
+                chain(c, anc + [n])
+
+    chain(r, [])
+    rec(r, {})
     return r if hit else None
 
 
